@@ -2,6 +2,15 @@ from . import rules_c02, rules_geom, inputs
 from .check_c01 import QUICK_SQUARES
 
 
+def self_controls(prog, facts):
+    from . import perturb
+    from spec import geometry as G
+    bad_mask = G.TRAP_MASK ^ (1 << G.sq('f', 6)) ^ (1 << G.sq('e', 6))
+
+    def rule(c, p2):
+        rules_c02.check_capture_footprint(c, p2, inputs.make_interp(p2))
+    return perturb.run_controls([('trap mask bit moved', lambda f: perturb.perturb_const(f, 'TRAP_MASK', bad_mask), rule, 'C02.3')], facts)
+
 def run(ctx, prog, facts, tier):
     I = inputs.make_interp(prog, fuel=5000000)
     mvs = rules_c02.moves(tier == 'quick', QUICK_SQUARES if tier == 'quick' else None)
